@@ -156,7 +156,7 @@ func DiffSeq(got, want []osm.Object) string {
 	}
 	for i := 0; i < n; i++ {
 		if d := Diff(got[i], want[i]); d != "" {
-			return fmt.Sprintf("object %d (%v): %s", i, want[i].ObjectID(), d)
+			return fmt.Sprintf("object %d (%s): %s", i, Name(want[i]), d)
 		}
 	}
 	if len(got) != len(want) {
@@ -240,4 +240,18 @@ func DiffHeader(got, want *osmpbf.Header) string {
 		return fmt.Sprintf("replication base url: got %q want %q", got.ReplicationBaseURL, want.ReplicationBaseURL)
 	}
 	return ""
+}
+
+// Name renders kind/id:version without going through the library's id packing
+// (which cannot represent the full int64 id range the format allows).
+func Name(o osm.Object) string {
+	switch x := o.(type) {
+	case *osm.Node:
+		return fmt.Sprintf("node/%d:%d", x.ID, x.Version)
+	case *osm.Way:
+		return fmt.Sprintf("way/%d:%d", x.ID, x.Version)
+	case *osm.Relation:
+		return fmt.Sprintf("relation/%d:%d", x.ID, x.Version)
+	}
+	return fmt.Sprintf("%T", o)
 }
